@@ -57,7 +57,7 @@ def framesHex (fs : List Frame) : String := (fs.foldl (fun acc f => acc ++ appen
 def settleAuto : Nat → Run → Run
   | 0, r => r
   | fuel + 1, r =>
-    let st := settle 100000 r.tids r.st
+    let st := settle 4000 r.tids r.st
     if r.auto then
       match st.sh.inflight with
       | some _ => match envStep st (.release none) with
@@ -102,7 +102,7 @@ def handle (cmd : String) (a : List String) : Option String :=
     let st0 : St := { opts := { splitSize := split, manualFlush := manual, wsize := if wsize = 0 then 4096 else wsize, sid := 1 } }
     let (_, out) ← acts.foldlM (fun (acc : Run × List String) act => do
         let r1 ← doAction acc.1 act
-        let r2 := settleAuto 1000 r1
+        let r2 := settleAuto 300 r1
         let (r3, o) := observe r2
         pure (r3, acc.2 ++ [o])) ({ st := st0 }, [])
     pure (" ".intercalate out)
